@@ -64,7 +64,17 @@ func allStrings(al []elem, maxLen int) []string {
 	return out
 }
 
+// inputClass is the signature class of an input: ASCII or not (a defect that shows on multi-byte strings
+// shows on strings with invalid bytes too; splitting them would double every signature).
 func inputClass(s string) string {
+	if isASCII(s) {
+		return "ASCII"
+	}
+	return "non-ASCII"
+}
+
+// outcomeClass is the finer class used for the evidence histogram.
+func outcomeClass(s string) string {
 	switch {
 	case !utf8.ValidString(s):
 		return "invalid UTF-8"
@@ -552,7 +562,7 @@ func checkGo(r *engine.R, s string) {
 	if !isASCII(s) || ng != n {
 		r.NT(1)
 	}
-	r.Outcome("go " + cls)
+	r.Outcome("go " + outcomeClass(s))
 }
 
 // operand is a right-hand side of a binary operator: a String or a Char
@@ -1017,7 +1027,7 @@ func checkVMLine(r *engine.R, s, line, code string) {
 	} else {
 		rp.bad("*", cls, "observation malformed", f["M"], code)
 	}
-	r.Outcome("vm " + cls)
+	r.Outcome("vm " + outcomeClass(s))
 }
 
 func checkVMLine2(r *engine.R, s string, o operand, line, code string) {
